@@ -656,6 +656,7 @@ func vhAlphabetBase() []vhOp {
 		{"L", "offer", "fresh"}, {"R", "offer", "pool"}, {"L", "answer", "fresh"}, {"R", "answer", "pool"},
 		{"L", "pranswer", "fresh"}, {"R", "pranswer", "pool"}, {"L", "rollback", "empty"}, {"R", "rollback", "empty"},
 		{"L", "offer", "stale"}, {"L", "answer", "stale"}, {"R", "offer", "pool2"}, {"R", "answer", "pool2"},
+		{"L", "pranswer", "stale"},
 	}
 }
 
